@@ -58,6 +58,11 @@ var configs = []config{
 	{[]string{"BIND"}, map[string]string{"u": "p"}, [4]bool{false, false, true, false}, [][2]string{{"u", "p"}}},
 	{[]string{"ASSOCIATE", "BIND"}, map[string]string{"a": "", "bb": "c"}, [4]bool{false, false, true, true}, [][2]string{{"a", ""}, {"bb", "c"}}},
 	{nil, map[string]string{"": "secret"}, [4]bool{false, true, false, true}, nil}, // only an empty user name: nobody can authenticate
+	// user names given as placeholders that resolve to nothing: those accounts do not exist
+	{nil, map[string]string{"{env.VERIF_C16_UNSET_USER}": "{env.VERIF_C16_UNSET_PASS}"}, [4]bool{false, true, false, true}, nil},
+	{[]string{"CONNECT"}, map[string]string{"{env.VERIF_C16_UNSET_USER}": "", "u": "p"}, [4]bool{false, true, false, false}, [][2]string{{"u", "p"}}},
+	{[]string{"BIND"}, nil, [4]bool{false, false, true, false}, nil},
+	{[]string{"associate"}, nil, [4]bool{false, false, false, true}, nil},
 }
 
 func bytesEq(d []byte, off, n int, s string) bool {
@@ -81,7 +86,7 @@ func attempted(written []byte, authed bool) (bool, int) {
 		return true, sink
 	}
 	off := 2
-	if authed {
+	if len(written) >= 2 && written[1] == 2 { // the server selected username/password: its status reply precedes the final one
 		off = 4
 	}
 	if len(written) >= off+2 && written[off] == 5 {
@@ -102,6 +107,29 @@ func VH_socks5() {
 	cfg := configs[ci]
 	h := &l4socks.Socks5Handler{Commands: cfg.commands, Credentials: cfg.creds}
 	vapi.Assert(h.Provision(caddy.Context{}) == nil, "provision")
+	serve(h, cfg, ci)
+}
+
+// VH_socks5_pair: a second handler instance with a different configuration is
+// provisioned after the first (another route, or a config reload); the first
+// one keeps serving exactly what it was configured for.
+func VH_socks5_pair() {
+	sink = 0
+	pairs := [][2]int{{1, 8}, {0, 7}, {7, 1}, {8, 0}}
+	pi := vapi.Param("PAIR", -1)
+	if pi < 0 {
+		pi = vapi.Choice("pair", len(pairs))
+	}
+	a, b := configs[pairs[pi][0]], configs[pairs[pi][1]]
+	ha := &l4socks.Socks5Handler{Commands: a.commands, Credentials: a.creds}
+	vapi.Assert(ha.Provision(caddy.Context{}) == nil, "provision")
+	hb := &l4socks.Socks5Handler{Commands: b.commands, Credentials: b.creds}
+	vapi.Assert(hb.Provision(caddy.Context{}) == nil, "provision")
+	vapi.Cover("second handler provisioned")
+	serve(ha, a, pairs[pi][0])
+}
+
+func serve(h *l4socks.Socks5Handler, cfg config, ci int) {
 	d := vapi.Bytes("D", vapi.Param("L", 22))
 	conn := &env.SymConn{D: d, MaxReads: vapi.Param("ROUNDS", 2)}
 	cx := layer4.WrapConnection(conn, nil, zap.NewNop())
@@ -146,4 +174,5 @@ func VH_socks5() {
 
 func init() {
 	vapi.Register("c16.VH_socks5", VH_socks5)
+	vapi.Register("c16.VH_socks5_pair", VH_socks5_pair)
 }
